@@ -16,6 +16,7 @@ Result(c) == CASE c.op = "setd" -> SetViaD(c.pre, c.x, c.v)
                [] c.op = "setp" -> SetOnP(c.pre, c.p, c.x, c.v)
                [] c.op = "del"  -> DelLocal(c.pre, c.x)
                [] c.op = "swap" -> Swap(c.pre, c.p)
+               [] c.op = "setp0" -> SetOnStranger(c.pre, c.x, c.v)
 Clauses(c) ==
   LET r == Result(c)
       errd == c.exc # ""
@@ -26,7 +27,7 @@ Clauses(c) ==
      \cup (IF badread = {} THEN {} ELSE {"C11-read-does-not-mirror-target"})
      \cup (IF \E q \in {"q", "q2", "q3"} : c.readq[q] # ReadQ(c.post, q) THEN {"C11-chain-read"} ELSE {})
      \* notifications of the handler on D.x: as specified for assignments; open for swap / del
-     \cup (IF c.op \in {"setd", "setp"} /\ c.calls # r.calls THEN {"C11-notification"} ELSE {})
+     \cup (IF c.op \in {"setd", "setp", "setp0"} /\ c.calls # r.calls THEN {"C11-notification"} ELSE {})
      \cup (IF c.op \in {"setd", "setp", "setq"} /\ errd /\ c.calls # <<>> THEN {"C11-notified-on-rejected-assignment"} ELSE {})
 Judge == i <= 0 \/ LET f == Clauses(Trace[i]) IN IF f = {} THEN TRUE ELSE PrintT(<<"REJECT", i, f>>)
 AllJudged == TLCGet("distinct") = N + NB + 1
